@@ -8,9 +8,9 @@ META = {
                  'serialiser/parser pair (Codec) and the purl library; differential validation of the Codec.roundtrips ASSUMPTION and of the model by '
                  'writing real files with binary/spdx.Write23 / binary/cdx.Write and scanning them with the real SBOM extractors',
     'design_ref': 'DESIGN.md §4 (section of C15), §5 (defects), §7 (seeded changes)',
-    'text': 'Kernel-checked for ALL inventories: if the chosen format\'s codec round-trips (decode (encode d) = some d), scanning the written file returns, '
+    'text': 'Kernel-checked for ALL inventories: if the chosen format\'s codec round-trips ON THE DOCUMENT AT HAND (pointwise hypothesis of C15_spdx_partial / C15_cdx_partial) and the purl library obeys NormLaws (name, version, type, namespace, qualifiers, sub-path), scanning the written file returns, '
             'in order, exactly the normalised purls (norm u = FromString(u.String())) of the exported packages — SPDX: purl present with non-empty name and version; '
-            'CycloneDX: purl present — duplicates kept, purl-less packages and the extra "main" SPDX package absent (C15_spdx, C15_cdx, *_general); if the parser rejects '
+            'CycloneDX: purl present — duplicates kept, purl-less packages and the extra "main" SPDX package absent (C15_spdx_partial, C15_cdx_partial; C15_spdx / C15_cdx and *_general are the identity-codec forms kept as examples); if the parser rejects '
             'what the writer produced the scan fails (C15_codec_failure); file-name dispatch is independent of Go map order. The tie to the code: each generated '
             'inventory (0..30 packages, all 39 purl types, namespaces, qualifiers, sub-paths, escaping-sensitive characters, newlines/<text>, control characters, '
             'duplicates, purl-less and CPE-only packages, malformed purls) is exported in the five formats with the real writers and scanned with the real extractors; '
